@@ -1075,7 +1075,7 @@ bool Process::Arguments::read(int& character, String& argument)
           const char* end = String::find(arg, '=');
           usize argLen = end ? end - arg : String::length(arg);
           for(const Option* opt = options; opt < optionsEnd; ++opt)
-            if(opt->name && String::compare(opt->name, arg, argLen) == 0 && !opt->name[argLen])
+            if(opt->name && String::compare(opt->name, arg, argLen) == 0 && !opt->name[argLen] && (!end || (opt->flags & Process::argumentFlag)))
             {
               const char* argName = arg;
               character = opt->character;
